@@ -122,6 +122,9 @@ class RMAX(Learns):
         self.rewards = np.zeros((self.n_states, self.n_actions))  # used to record the rewards R(s, a) seen
         self.transitions = np.zeros((self.n_states, self.n_actions, self.n_states))  # used to count the number of (s, a, s') transitions seen
         self.s_a_counts = np.zeros((self.n_states, self.n_actions))  # used to count the number of (s, a) transitions seen
+        # self-loop model for pairs without enough data (rebuilt per training run: the learner may be reused on another MDP)
+        self._self_transition_mat = np.zeros_like(self.transitions)
+        self._self_transition_mat[np.arange(self.n_states), :, np.arange(self.n_states)] = 1
         
         self.q_matrix = np.ones((self.n_states, self.n_actions)) * self.rmax * 1/(1-mdp.discount_rate)
 
@@ -167,12 +170,6 @@ class RMAX(Learns):
             if np.all(np.abs(self.q_matrix[mask] - new_q[mask]) < self.bellman_convergence_diff):
                 break
             self.q_matrix[mask] = new_q[mask]
-
-    @cached_property
-    def _self_transition_mat(self):
-        self_transition_mat = np.zeros_like(self.transitions)
-        self_transition_mat[np.arange(self.n_states), :, np.arange(self.n_states)] = 1
-        return self_transition_mat
 
     def _training(
         self,
